@@ -7,6 +7,7 @@ import BeffVerif.Driver.SchemaOps
 import BeffVerif.Driver.SplitOps
 import BeffVerif.Driver.WatchOps
 import BeffVerif.Driver.SubOps
+import BeffVerif.Driver.SemOps
 /-! Line-protocol driver: one request S-expression per line on stdin, one reply per line on stdout. -/
 open BeffVerif
 
@@ -18,6 +19,7 @@ def hyps (req : Sexp) : Option Sexp :=
   | .list [.atom "rewrite", _, p, _, _, q, _, .list script] => some (Driver.rewriteHyps p q script)
   | .list [.atom "describe", _, prog, _, _] => some (Driver.describeHyps prog)
   | .list [.atom "sub", _, .list decls, a, b, _] => some (Driver.subSpec decls a b)
+  | .list [.atom "sem", _, prog, _, .list vals] => some (Driver.semSpec prog vals)
   | .list [.atom "schema-ctx", env, .list rts, .str template, _, .list ovs, .list calls, _] => some (Driver.schemaHyps env rts template ovs calls)
   | _ => none
 
@@ -35,6 +37,7 @@ def handle (req : Sexp) : Sexp :=
   | .list [.atom "split", _, p, _, .list vals, proj, _, _, _] => Driver.splitOp p proj vals
   | .list [.atom "watch", _, files, ops] => Driver.watchOp files ops
   | .list [.atom "sub", _, .list decls, a, b, _] => Driver.subOp decls a b
+  | .list [.atom "sem", _, prog, _, .list vals] => Driver.semOp prog vals
   | .list [.atom "loc", .str src, .atom lo, .atom hi] => Driver.locOp src (lo.toNat?.getD 0) (hi.toNat?.getD 0)
   | .list [.atom "schema-ctx", env, .list rts, .str template, container, .list ovs, .list calls, _] =>
     Driver.schemaCtxOp env rts template (match container with | .str k => some k | _ => none) ovs calls
